@@ -152,6 +152,9 @@ opt_validate(jcmd_opt_t *opt)
     } else if (nkeys > 1 && opt->io.compact) {
         fprintf(stderr, "Requested compact format with >1 recipient!\n");
         return false;
+    } else if (opt->io.compact && json_object_get(opt->io.obj, "aad")) {
+        fprintf(stderr, "Requested compact format with \"aad\"!\n");
+        return false;
     }
 
     if (!opt->io.detached) {
